@@ -67,4 +67,30 @@ def pyIndex [DecidableEq α] (l : List α) (x : α) : Option Nat :=
 def pyRemove [DecidableEq α] (l : List α) (x : α) : Option (List α) :=
   if x ∈ l then some (l.erase x) else none
 
+/-! ### slices `l[a:b:k]` (specification: `slice.indices(len(l))` of CPython) -/
+
+/-- `slice(a, b, k).indices(n)` for `k ≠ 0`: the first position and the bound, as CPython clamps them -/
+def sliceBounds (n : Nat) (a b : Option Int) (k : Int) : Int × Int :=
+  let n' : Int := n
+  let clamp (v : Int) (lo hi : Int) : Int := if v < 0 then (if v + n' < lo then lo else v + n') else (if v > hi then hi else v)
+  if k > 0 then
+    ((match a with | none => 0 | some v => clamp v 0 n'), (match b with | none => n' | some v => clamp v 0 n'))
+  else
+    ((match a with | none => n' - 1 | some v => clamp v (-1) (n' - 1)), (match b with | none => -1 | some v => clamp v (-1) (n' - 1)))
+
+/-- the positions of the slice, in the order Python visits them (`fuel` bounds the walk: `n` positions at most) -/
+def slicePositions (n : Nat) (a b : Option Int) (k : Int) : List Nat :=
+  let (start, stop) := sliceBounds n a b k
+  let rec go (fuel : Nat) (i : Int) (acc : List Nat) : List Nat :=
+    match fuel with
+    | 0 => acc.reverse
+    | fuel + 1 =>
+      if (k > 0 ∧ i < stop) ∨ (k < 0 ∧ i > stop) then go fuel (i + k) (i.toNat :: acc) else acc.reverse
+  go n start []
+
+/-- `del l[a:b:k]` -/
+def pyDelSlice (l : List α) (a b : Option Int) (k : Int) : List α :=
+  let ps := slicePositions l.length a b k
+  (l.zipIdx.filter (fun (_, i) => !ps.contains i)).map (·.1)
+
 end Py
